@@ -97,6 +97,22 @@ let run () =
     | ["tables"] ->
         Stdlib.Printf.printf "schema_ok %b\n" schema_ok;
         Stdlib.Printf.printf "kind_names_distinct %b\n" kind_names_distinct;
+        Stdlib.Printf.printf "labels_closed %b\n" (labels_closed gen_writers gen_readers);
+        Stdlib.Printf.printf "schema_in_sources %b\n" (schema_in_sources gen_writers gen_readers);
+        Stdlib.Printf.printf "enum_tables_match %b\n" (enum_tables_match gen_enum_tables);
+        Stdlib.List.iter (fun w -> match w with
+          | WRow (f, p, nm, l, d, nd) ->
+              Stdlib.Printf.printf "open_wrow %s %s %s %s %s\n" (str_of_bytes f) (str_of_bytes p) (str_of_bytes l)
+                (match d with WLit x -> str_of_bytes x | WSize -> "cgsize" | WParam -> "param")
+                (match nm with Some n -> str_of_bytes n | None -> "*")
+          | WUnparsed (f, w) -> Stdlib.Printf.printf "open_wrow unparsed %s %s\n" (str_of_bytes f) (str_of_bytes w))
+          (open_wrows gen_writers gen_readers);
+        Stdlib.List.iter (fun r -> match r with
+          | RUnparsed (f, w) -> Stdlib.Printf.printf "unparsed_reader %s %s\n" (str_of_bytes f) (str_of_bytes w)
+          | _ -> ()) gen_readers;
+        Stdlib.List.iter (fun ((p, c), dts) ->
+          Stdlib.Printf.printf "unbacked %s %s %s\n" (str_of_bytes p) (str_of_bytes c)
+            (Stdlib.String.concat "," (Stdlib.List.map str_of_bytes dts))) (unbacked_rows gen_writers gen_readers);
         Stdlib.List.iter (fun ((p, c), dts) ->
           Stdlib.Printf.printf "row %s %s %s\n" (str_of_bytes p) (str_of_bytes c)
             (Stdlib.String.concat "," (Stdlib.List.map str_of_bytes dts))) schema_rows
